@@ -1011,6 +1011,73 @@ fn gen_posix(c: &mut Ctx, ext: bool) -> String {
     format!("{}{}{}{},{}{},{}{}", name(c, false), so_s, name(c, true), do_s, d1, t1, d2, t2)
 }
 
+/// Independent reading of the standard / daylight offsets a POSIX TZ string states, in seconds EAST of UT
+/// (POSIX writes them west-positive).  `None` when the string is not of the plain shape this reader knows.
+fn ref_posix_offsets(rule: &str) -> Option<(i64, Option<i64>)> {
+    let b = rule.as_bytes();
+    let mut i = 0usize;
+    fn name(b: &[u8], i: &mut usize) -> Option<()> {
+        if *i < b.len() && b[*i] == b'<' {
+            while *i < b.len() && b[*i] != b'>' {
+                *i += 1;
+            }
+            if *i >= b.len() {
+                return None;
+            }
+            *i += 1;
+            Some(())
+        } else {
+            let s = *i;
+            while *i < b.len() && b[*i].is_ascii_alphabetic() {
+                *i += 1;
+            }
+            if *i - s >= 3 { Some(()) } else { None }
+        }
+    }
+    fn off(b: &[u8], i: &mut usize) -> Option<i64> {
+        let mut sign = 1i64;
+        if *i < b.len() && (b[*i] == b'+' || b[*i] == b'-') {
+            if b[*i] == b'-' {
+                sign = -1;
+            }
+            *i += 1;
+        }
+        let mut parts = [0i64; 3];
+        let mut k = 0;
+        loop {
+            let s = *i;
+            let mut v = 0i64;
+            while *i < b.len() && b[*i].is_ascii_digit() {
+                v = v * 10 + (b[*i] - b'0') as i64;
+                *i += 1;
+            }
+            if *i == s || *i - s > 3 {
+                return None;
+            }
+            parts[k] = v;
+            k += 1;
+            if k < 3 && *i < b.len() && b[*i] == b':' {
+                *i += 1;
+            } else {
+                break;
+            }
+        }
+        // the whole hh:mm:ss quantity carries the sign
+        Some(sign * (parts[0] * 3600 + parts[1] * 60 + parts[2]))
+    }
+    name(b, &mut i)?;
+    let std_west = off(b, &mut i)?;
+    if i == b.len() {
+        return Some((-std_west, None));
+    }
+    name(b, &mut i)?;
+    let dst_west = if i < b.len() && b[i] != b',' { off(b, &mut i)? } else { std_west - 3600 };
+    if i < b.len() && b[i] != b',' {
+        return None;
+    }
+    Some((-std_west, Some(-dst_west)))
+}
+
 /// POSIX offset text for a UT offset given in POSIX sign convention (west positive), |v| <= 24h59m59s
 fn posix_off(v: i64) -> String {
     let v = v.clamp(-(24 * 3600 + 3599), 24 * 3600 + 3599);
@@ -1322,7 +1389,10 @@ pub fn run(c: &mut Ctx) {
                     glue.push((format!(":{p}"), p.clone()));
                 }
             }
-            _ => c.count("sys.rejected"),
+            // a file compiled by zic is conforming zone data: a reader that refuses it makes `Local` fall back
+            // to UTC silently (seed R4-C05-a: Asia/Kolkata's footer `IST-5:30` misread, then refused)
+            Ok(Err(e)) => c.fail("a system zone file (written by zic) is rejected by the reader", &format!("{p}: {e}")),
+            Err(()) => c.fail("the reader panicked on a system zone file", p),
         }
     }
     // ---- B0. directed synthetic zones
@@ -1413,7 +1483,9 @@ pub fn run(c: &mut Ctx) {
     let fixed_rules = [
         "EST5EDT,M3.2.0,M11.1.0", "GMT0BST,M3.5.0/1,M10.5.0", "IST-1GMT0,M10.5.0,M3.5.0/1", "AEST-10AEDT,M10.1.0,M4.1.0/3",
         "NZST-12NZDT,M9.5.0,M4.1.0/3", "<-03>3<-02>,M3.5.0/-2,M10.5.0/-1", "CST6CDT,J60,J300", "CST6CDT,59,299",
-        "AAA3BBB,J1/0,J365/24", "AAA-3BBB,0/0,365/0", "XXX-5:30", "UTC0", "WET0WEST,M3.5.0,M10.5.0/3",
+        "AAA3BBB,J1/0,J365/24", "AAA-3BBB,0/0,365/0", "XXX-5:30", "UTC0", "NPT-5:45", "ACST-9:30ACDT,M10.1.0,M4.1.0/3",
+        "<+0330>-3:30<+0430>,J79/24,J263/24", "NST3:30NDT,M3.2.0,M11.1.0", "AAA-0:30", "AAA-0:00:30BBB-1:00:30,M3.2.0,M11.1.0",
+        "AAA+0:45BBB-0:15,M3.2.0,M11.1.0", "WET0WEST,M3.5.0,M10.5.0/3",
         "AAA0BBB-1,M3.1.0,M3.4.0", "AAA0BBB1,M10.1.0,M10.4.0", "AAA0BBB-2,M2.5.0/24,M9.1.6/0",
         // inside the quantifier but outside `RuleYearly`: the two transitions closer than twice the offset
         // jump; the start/end order flipping from year to year (judged under the prefix PFX_RULE)
@@ -1425,6 +1497,21 @@ pub fn run(c: &mut Ctx) {
         match guard(|| vt::from_env_tz(Some(&rule))) {
             Ok(Ok(z)) => {
                 let zc = mk("posix", rule.clone(), z);
+                // the offsets the string states, read by an independent reader (POSIX: west positive,
+                // [+-]hh[:mm[:ss]], DST defaults to one hour ahead of standard time)
+                if let Some((std_ut, dst_ut)) = ref_posix_offsets(&rule) {
+                    let got = match &zc.pz.rule {
+                        Rule::Fixed(l) => Some((l.off, None)),
+                        Rule::Alt(a) => Some((a.std.off, Some(a.dst.off))),
+                        Rule::None => None,
+                    };
+                    if got != Some((std_ut, dst_ut)) {
+                        c.fail("a POSIX TZ string is read with offsets other than the ones it states",
+                               &format!("TZ={rule}: states std {std_ut} dst {dst_ut:?} (seconds east), read as {got:?}"));
+                    }
+                } else {
+                    c.count("posix.ref_reader_declined");
+                }
                 if i < 3 {
                     c.sample(&format!("POSIX rule {} -> {}", rule, zc.dump));
                 }
